@@ -155,6 +155,20 @@ def closure_in_scope(E, t, seen=None):
     return True
 
 
+def closure_has_ops(E, t, seen=None):
+    seen = seen if seen is not None else set()
+    for p in t:
+        if p[0] == "op":
+            return True
+        if p[0] == "ref":
+            nm = p[1][0][1] if p[1] and p[1][0][0] == "lit" else None
+            if nm in E.root and nm not in seen:
+                seen.add(nm)
+                if closure_has_ops(E, E.root[nm], seen):
+                    return True
+    return False
+
+
 def render(t):
     s = ""
     for p in t:
@@ -291,7 +305,9 @@ def to_case(rng, E, refs, placement, tier):
             else:
                 expect.append({"ok": {"s": v}})
         except (Cyc, Unres):
-            expect.append({"anyerr": True})
+            # a failure somewhere below default/alternative operators may be absorbed in ways that depend on the per-call
+            # cache (the neighbourhood of known finding D17): only operator-free closures are decided here
+            expect.append({"anyerr": True} if not closure_has_ops(E, E.root[nm]) else None)
         except Skip:
             expect.append(None)
     if rng.chance(0.5):
